@@ -983,8 +983,16 @@ func (b *BaseStore) LoadFromSnapshot(ctx context.Context) error {
 		return fmt.Errorf("unable to load log: %w", err)
 	}
 
-	if _, err = b.OpLog().Join(log, -1); err != nil {
-		return fmt.Errorf("unable to join log: %w", err)
+	// the log built from the snapshot also holds what its entries link to and
+	// the node can fetch: entries the store had refused when it received them
+	// (access controller, signature, another database, address) must not come
+	// back this way, nor make the snapshot impossible to load
+	oplog := b.OpLog()
+	if !b.holdsOnlyOwnEntries(log) || !b.holdsOnlyEntriesStoredUnderTheirAddress(ctx, log) {
+		b.joinEntriesOneByOne(ctx, oplog, log, -1)
+	} else if _, err = oplog.Join(log, -1); err != nil {
+		b.logger.Debug("unable to join the log of a snapshot, joining its entries one at a time", zap.Error(err))
+		b.joinEntriesOneByOne(ctx, oplog, log, -1)
 	}
 
 	// no progress is reported while a snapshot is read: account for its
